@@ -6,6 +6,7 @@ import Lean.Data.Json
 import Adsg.Model.Graph
 import Adsg.Model.DV
 import Adsg.Model.Metrics
+import Adsg.Model.Steps
 open Lean Adsg
 
 namespace Drv
@@ -167,11 +168,25 @@ def opMetrics (j : Json) : R Json := do
     ("roles", Json.arr roles.toArray),
     ("ok", Json.bool (classify perm ms).isSome), ("evals", Json.arr evals.toArray)]
 
+/-- State of a step-by-step resolution: partial assignment `a` (option index or null per choice). -/
+def opState (j : Json) : R Json := do
+  let g ← dsg (← field j "g")
+  let a ← assign (← field j "a")
+  let X := closure g a
+  let act := activeChoices g a
+  let next := act.filter (fun c => (a.get c).isNone)
+  let via := next.map (fun c => Json.mkObj [("c", jNat c), ("viable", jList jNat (viable g a c))])
+  return Json.mkObj [("nodes", jList jNat (sortNat X)), ("active", jList jNat act), ("next", jList jNat next),
+    ("viable", Json.arr via.toArray), ("completable", Json.bool (completable g a)),
+    ("conflict_free", Json.bool (conflictFreeB g X)), ("cons_ok", Json.bool (consOK g a)),
+    ("row", jList (jOpt jNat) (row g a))]
+
 def dispatch (op : String) (j : Json) : R Json :=
   match op with
   | "ping" => return Json.str "pong"
   | "closure" => opClosure j
   | "archs" => opArchs j
+  | "state" => opState j
   | "correct_value" => opCorrect j
   | "decode_dv" => opDecodeDV j
   | "metrics" => opMetrics j
